@@ -346,6 +346,17 @@ class World:
                     bdir = os.path.normpath(os.path.join(req["cwd"], bdir))
                     reads, writes = self.settle()
                     out["driver_writes"] = sorted(self.rel(p) for p in writes)
+                    if "-t" in a:
+                        # a ninja subtool, not a build
+                        tool = a[a.index("-t") + 1] if a.index("-t") + 1 < len(a) else ""
+                        rc = simninja.run_tool(self, bdir, tool, a)
+                        out.setdefault("ninja_tools", []).append({"tool": tool, "rc": rc})
+                        try:
+                            conn.sendall(("%d\n" % rc).encode())
+                        except OSError:
+                            pass
+                        conn.close()
+                        continue
                     sn = simninja.SimNinja(
                         self, bdir, op.get("sched"), op.get("faults"), env, step_log,
                         trace=trace_path, readdir_seed=readdir_seed,
